@@ -1,6 +1,6 @@
 """C08 - the ALU computes its documented function and flags.
 
-The numeric table (2 097 152 points) is not decided.  Decided:
+The pointwise numeric table (2 097 152 points) is not decided as such.  Decided:
   1. dependence sets (A9): for each of the 16 functions, result and carry-out
      depend on exactly the documented subset of (A, B, carry-in);
   2. shape facts by abstract interpretation (A4) on sub-domains selected by the
@@ -9,8 +9,14 @@ The numeric table (2 097 152 points) is not decided.  Decided:
      shifts, the value of bit 7 for LSR/RR/RRC/ASR, carry hold/invert for BH/
      INVC, carry-in forcing carry-out for the carry-holding add;
   3. Z/N derivation: zero/negative outputs are derived from the value that
-     becomes the result (dependence + cells through the pass-B function).
+     becomes the result (dependence + cells through the pass-B function);
+  4. arithmetic on a partition of the operand space into ~5600 cells on which the
+     documented carry-out is constant: result set, carry, zero and negative sets
+     per cell (adders: A fixed x B interval on one side of the carry threshold).
 """
+import multiprocessing
+import os
+
 from .. import absint, shapes, mirutil, spec, depend
 from .. import domain as D
 from ..domain import Agg, En, Ref, TOP, BOT, Opaque
@@ -31,6 +37,117 @@ LOW = frozenset(range(0, 128))
 HIGH = frozenset(range(128, 256))
 U8 = frozenset(range(256))
 BOOL = frozenset((0, 1))
+
+
+CELL_DOC = {"ADD": "A+B, carry = sum exceeds 8 bits", "ADDH": "A+B, carry = carry-in or sum exceeds 8 bits",
+            "ADDS": "A+B+1, carry inverted", "ADC": "A+B+carry-in", "ADCS": "A+B+inverted carry-in, carry inverted",
+            "NOR": "not(A or B), carry clear", "LSR": "A>>1, bit 0 to carry", "RR": "A>>1 with bit 0 on top, bit 0 to carry",
+            "RRC": "A>>1 with carry-in on top, bit 0 to carry", "ASR": "A>>1 keeping bit 7, bit 0 to carry"}
+_CELL = None
+
+
+def _alu_cell(I, vi, a, b, cin):
+    p, body, in_fields, out_fields, names = _CELL
+    st = absint.State()
+    I.heap_counter = 0
+    ia = I.new_alloc(st, "in", Agg([{"input_a": a, "input_b": b, "carry_in": cin}[f] for f in in_fields]))
+    fa = I.new_alloc(st, "fn", En({vi: ()}))
+    I.events.clear()
+    r = I.run_body(body, [Ref(ia), Ref(fa)], st, 0)
+    bad = [e for e in I.events if e.kind in ("unknown_extern", "wild_write", "havoc", "panic")
+           or (e.kind == "assert" and e.info["may_fail"])]
+    if not isinstance(r, Agg) or bad:
+        return None
+    return {f: r.f[i] for i, f in enumerate(out_fields)}
+
+
+def _vals(v):
+    if isinstance(v, bool):
+        return {int(v)}
+    if isinstance(v, int):
+        return {v}
+    if D.is_scalar(v):
+        vs = D.values(v)
+        return set(vs) if vs is not None else None
+    return None
+
+
+def _cmp(r, outs, carries, what):
+    if r is None:
+        return "%s: not analysable" % what
+    exp = {"output": set(outs), "carry_out": set(carries), "zero_out": {int(o == 0) for o in outs},
+           "negative_out": {int(o >= 128) for o in outs}}
+    for f, want in exp.items():
+        got = _vals(r[f])
+        if got != want:
+            return "%s: %s is %s, documented %s" % (what, f, _short(got), _short(want))
+    return None
+
+
+def _short(s):
+    if s is None:
+        return "unknown"
+    l = sorted(s)
+    return "{%s}" % ", ".join("%#x" % x for x in l) if len(l) <= 6 else "{%#x..%#x, %d values}" % (l[0], l[-1], len(l))
+
+
+def _cell_job(job):
+    kind, name, arg = job
+    p, body, in_fields, out_fields, names = _CELL
+    vi = names.index(name)
+    I = absint.Interp(p)
+    n = 0
+    bad = []
+    if kind == "adder":
+        a = arg
+        for cin in (0, 1):
+            k = {"ADD": 0, "ADDH": 0, "ADDS": 1, "ADC": cin, "ADCS": 1 - cin}[name]
+            inv = name in ("ADDS", "ADCS")
+            t = 256 - a - k
+            for lo, hi, over in ((0, min(t - 1, 255), 0), (max(t, 0), 255, 1)):
+                if lo > hi:
+                    continue
+                c = over
+                if name == "ADDH":
+                    c = 1 if cin else over
+                if inv:
+                    c = 1 - over
+                # the domain is non-relational: where an intermediate carry flips inside the cell the abstract
+                # result is imprecise; such a cell is bisected until the result is exact (at worst a single B)
+                work = [(lo, hi)]
+                while work:
+                    l2, h2 = work.pop()
+                    cell = frozenset(range(l2, h2 + 1)) if l2 != h2 else l2
+                    outs = {(a + b + k) & 0xFF for b in range(l2, h2 + 1)}
+                    r = _alu_cell(I, vi, a, cell, cin)
+                    n += 1
+                    m = _cmp(r, outs, {c}, "A=%#04x, B in %#04x..%#04x, carry-in %d" % (a, l2, h2, cin))
+                    if m and l2 < h2:
+                        mid = (l2 + h2) // 2
+                        work.append((l2, mid))
+                        work.append((mid + 1, h2))
+                    elif m:
+                        bad.append(m)
+    elif kind == "nor":
+        a = arg
+        r = _alu_cell(I, vi, a, U8, BOOL)
+        n += 1
+        m = _cmp(r, {(~(a | b)) & 0xFF for b in range(256)}, {0}, "A=%#04x, B any" % a)
+        if m:
+            bad.append(m)
+    else:
+        blk = arg
+        for par in (0, 1):
+            cell = frozenset(x for x in range(16 * blk, 16 * blk + 16) if x & 1 == par)
+            for cin in (0, 1):
+                f = {"LSR": lambda x: x >> 1, "RR": lambda x: (x >> 1) | ((x & 1) << 7),
+                     "RRC": lambda x: (x >> 1) | (cin << 7), "ASR": lambda x: (x >> 1) | (x & 0x80)}[name]
+                r = _alu_cell(I, vi, cell, U8, cin)
+                n += 1
+                m = _cmp(r, {f(x) for x in cell}, {par}, "A in %#04x..%#04x with bit0=%d, carry-in %d" % (16 * blk, 16 * blk + 15, par, cin))
+                if m:
+                    bad.append(m)
+    return n, bad
 
 
 def run(ctx):
@@ -183,5 +300,41 @@ def run(ctx):
                        r2 is not None and r2["zero_out"] == z and r2["negative_out"] == n,
                        "zero is set exactly for result 0 and negative exactly for bit 7", where,
                        "B %s: zero %r negative %r" % (cname, r2 and r2["zero_out"], r2 and r2["negative_out"]))
-    chk.assume("the arithmetic of the adds (sum modulo 256, carry polarity of ADDS/ADCS) is not decided by this check")
+    # ---- 4. arithmetic on a partition of the operand space ----------------------------------
+    # For the five adders the carry-out is constant on each side of the documented threshold
+    # A + B + k >= 256; with A fixed the two cells are intervals of B.  The abstract result on each
+    # cell must be: carry = the documented constant, result set = the documented sums of the cell,
+    # zero/negative sets = those of that result set.  (Cells, not points: no operand pair is evaluated
+    # on its own; equality of sets per cell is a necessary condition of the pointwise table.)
+    global _CELL
+    _CELL = (p, body, in_fields, out_fields, names)
+    jobs = []
+    for name in ("ADD", "ADDH", "ADDS", "ADC", "ADCS"):
+        if name in names:
+            for a in range(256):
+                jobs.append(("adder", name, a))
+    for a in range(256):
+        jobs.append(("nor", "NOR", a))
+    for name in ("LSR", "RR", "RRC", "ASR"):
+        for blk in range(16):
+            jobs.append(("shift", name, blk))
+    with multiprocessing.get_context("fork").Pool(min(16, os.cpu_count() or 4)) as pool:
+        results = pool.map(_cell_job, jobs, chunksize=16)
+    ncells = 0
+    per_fn = {}
+    for (kind, name, arg), (n, bad) in zip(jobs, results):
+        ncells += n
+        e = per_fn.setdefault(name, [0, []])
+        e[0] += n
+        e[1].extend(bad)
+    for name, (n, bad) in sorted(per_fn.items()):
+        chk.ob("cells/%s" % name, not bad,
+               "on every cell of the operand partition the result set, carry-out, zero and negative outputs are those of the "
+               "documented function (%s)" % CELL_DOC.get(name, ""), "%s (arm %s)" % (body.file, name),
+               "; ".join(bad[:3]) or "%d cells" % n,
+               "abstract interpretation per cell: A fixed, B an interval on one side of the carry threshold (adders); "
+               "A fixed, B any (NOR); A in an aligned block of 16 with fixed parity (shifts)")
+    chk.floor("operand-space cells", ncells, 5500)
+    chk.assume("within a cell only the *set* of results is compared; a function that permutes results inside a cell "
+               "would not be noticed (the dependence and pass-through clauses bound what such a function could look like)")
     chk.sample({"function": "RRC", "result depends on": ["A", "Cin"], "carry depends on": ["A"]})
